@@ -1,6 +1,7 @@
 import Driver.Cpu
 import Driver.Mem
 import Driver.Text
+import Driver.Load
 /-
   Driver: one request per line on stdin, one answer per line on stdout.
   Unknown or malformed lines answer `bad` (never a default).
@@ -13,6 +14,8 @@ def handle (line : String) : String :=
   else if l.startsWith "runs " then handleRuns l
   else if l.startsWith "mem " then handleMem l
   else if l.startsWith "dump " then handleDump l
+  else if l.startsWith "load " then handleLoad l
+  else if l.startsWith "preload " then handlePreload l
   else if l.startsWith "dumpspec " then handleDumpSpec l
   else "bad"
 
